@@ -1925,10 +1925,29 @@ def q_fifo(chk, program):
     for n in g.nodes:
         for c in calls_in_node(g, n.id, lambda c: (isinstance(c.func, ast.Name) and c.func.id in aliases) or is_self_attr(c.func, ('receive_callback',))):
             cb.append((n.id, c))
-    chk.anchor(len(cb) == 1, 'Q-FIFO', f"{q}::one-callback-site", file=IO, line=g.fn.lineno, func=q, expected=1, found=len(cb))
+    chk.anchor(len(cb) >= 1, 'Q-FIFO', f"{q}::one-callback-site", file=IO, line=g.fn.lineno, func=q, expected='at least 1', found=len(cb))
+    if len(cb) > 1:
+        # several sites (the callback awaited plainly or under a timeout, per branch): no path hands one message to two of them -- from one site no
+        # other (nor the same one again) is reached without taking the next message from the queue first
+        twice = []
+        for nid, c in cb:
+            seen = set(); stack = [v for v, _ in g.succ[nid]]
+            while stack:
+                u = stack.pop()
+                if u in seen or u in getn:
+                    continue
+                seen.add(u)
+                if any(u == n2 for n2, _ in cb):
+                    twice.append((c.lineno, g.nodes[u].ast.lineno if hasattr(g.nodes[u].ast, 'lineno') else 0)); continue
+                stack.extend(v for v, _ in g.succ[u])
+        chk.check(not twice, 'Q-FIFO', f"{q}::one-callback-per-message", file=IO, line=g.fn.lineno, func=q, expected='between two queue.get at most one callback site is passed',
+                  found='ok' if not twice else [f"line {a} -> line {b}" for a, b in twice[:3]], detail='' if not twice else 'a message is handed to the callback twice')
     for nid, c in cb:
         st = g.nodes[nid].ast
         inline = g.is_await(nid) and isinstance(c._parent, ast.Await)
+        if not inline and isinstance(c._parent, ast.Call) and call_name(c._parent) in ('asyncio.wait_for', 'wait_for') and c._parent.args and c._parent.args[0] is c \
+                and isinstance(getattr(c._parent, '_parent', None), ast.Await):
+            inline = True          # await asyncio.wait_for(callback(message), t): still awaited to its end (or its cancellation) before the next message
         chk.check(inline, 'Q-FIFO', f"{q}::callback-awaited-inline", file=IO, line=c.lineno, func=q,
                   expected='`await receive_callback(message)` (no task per message: the next message waits for this callback)', found=stmt_key(st))
         arg_ok = False
@@ -2291,9 +2310,25 @@ def handler_cannot_raise(chk, program, rule='Q-FIFO'):
         is_cb = any((isinstance(c.func, ast.Name) and 'callback' in c.func.id) or is_self_attr(c.func, ('receive_callback',)) for c in body_calls)
         if not is_cb:
             continue
-        for h in tr.handlers:
-            bad = []
-            for st in h.body:
+        own_attrs = {n.attr for n in ast.walk(program.mod('ioclient').tree) if isinstance(n, ast.Attribute) and isinstance(n.ctx, ast.Store) and isinstance(n.value, ast.Name) and n.value.id == 'self'}
+        def plain_test(e):
+            """a test that cannot raise: names, attributes of names, constants, is / is not / == on those, isinstance(name, dotted class), not / and / or"""
+            if isinstance(e, (ast.Name, ast.Constant)):
+                return True
+            if isinstance(e, ast.Attribute):
+                return isinstance(e.value, ast.Name) and (e.value.id != 'self' or e.attr in own_attrs)
+            if isinstance(e, ast.UnaryOp) and isinstance(e.op, ast.Not):
+                return plain_test(e.operand)
+            if isinstance(e, ast.BoolOp):
+                return all(plain_test(v) for v in e.values)
+            if isinstance(e, ast.Compare):
+                return all(isinstance(o, (ast.Is, ast.IsNot, ast.Eq, ast.NotEq)) for o in e.ops) and all(plain_test(v) for v in [e.left] + e.comparators)
+            if isinstance(e, ast.Call) and isinstance(e.func, ast.Name) and e.func.id == 'isinstance' and len(e.args) == 2 and not e.keywords:
+                cls_ = e.args[1].elts if isinstance(e.args[1], ast.Tuple) else [e.args[1]]
+                return isinstance(e.args[0], ast.Name) and all(isinstance(c_, (ast.Name, ast.Attribute)) and (isinstance(c_, ast.Name) or isinstance(c_.value, ast.Name)) for c_ in cls_)
+            return False
+        def walk_handler(stmts, bad):
+            for st in stmts:
                 if isinstance(st, (ast.Pass, ast.Continue)):
                     continue
                 if isinstance(st, ast.Expr) and isinstance(st.value, ast.Call) and call_name(st.value).startswith('self.logger.'):
@@ -2302,7 +2337,17 @@ def handler_cannot_raise(chk, program, rule='Q-FIFO'):
                             if isinstance(x, (ast.Call, ast.Subscript, ast.BinOp, ast.Await)):
                                 bad.append(ast.unparse(x)[:60])
                     continue
+                if isinstance(st, ast.If) and plain_test(st.test):
+                    walk_handler(st.body, bad); walk_handler(st.orelse, bad)
+                    continue
+                if isinstance(st, ast.AugAssign) and isinstance(st.op, (ast.Add, ast.Sub)) and is_self_attr(st.target, tuple(own_attrs)) and isinstance(st.value, ast.Constant) and isinstance(st.value.value, int):
+                    continue          # a counter of the client itself
+                if isinstance(st, ast.Assign) and len(st.targets) == 1 and (isinstance(st.targets[0], ast.Name) or is_self_attr(st.targets[0], tuple(own_attrs))) and plain_test(st.value):
+                    continue
                 bad.append(ast.unparse(st)[:60])
+        for h in tr.handlers:
+            bad = []
+            walk_handler(h.body, bad)
             chk.check(not bad, rule, f"{q}::callback-handler-cannot-fail", file=IO, line=h.lineno, func=q,
                       expected='handler only logs plain names / attributes / f-strings of them (nothing in it can raise)', found=bad or 'logging only',
                       detail='' if not bad else 'an exception inside the handler (e.g. a method that exists only for some message kinds) ends the consumer task: later messages are queued and never delivered')
@@ -2326,6 +2371,41 @@ def lock_window(chk, program, rule='ONE-RX'):
                   expected='nothing is awaited between creating the receive task and leaving the connect lock',
                   found=[f"await@line{g.nodes[x].line}:{stmt_key(g.nodes[x].ast)}" for x in inside] or 'ok',
                   detail='' if not inside else 'the new receive loop can fault while connect() still holds the lock (e.g. inside a slow status callback): its reconnect request is dropped as "already running" and nobody retries')
+
+def other_writers(chk, program, rule='SEND-ATOMIC'):
+    """besides send(), nothing writes to the link while messages may be in flight unless it holds the send lock: every `self.writer.write(..)` in
+    another method of the client classes (the connection set-up in _connect_impl aside: the link is not handed out yet) is inside `async with
+    self.<lock>`, or the method is private and every one of its call sites is."""
+    m = program.mod('ioclient')
+    locks = instance_locks(program)
+    def locked(node, top):
+        t = node
+        while hasattr(t, '_parent') and t is not top:
+            t = t._parent
+            if isinstance(t, ast.AsyncWith) and any(is_self_attr(i.context_expr, tuple(locks)) for i in t.items):
+                return True
+        return False
+    found = 0
+    for q, fn in m.defs.items():
+        if q.count('.') != 1 or q.endswith('.send') or q.endswith('._connect_impl'):
+            continue
+        aliases = {t.id for n in ast.walk(fn) if isinstance(n, ast.Assign) and is_self_attr(n.value, ('writer',)) for t in n.targets if isinstance(t, ast.Name)}
+        for c in ast.walk(fn):
+            if isinstance(c, ast.Call) and isinstance(c.func, ast.Attribute) and c.func.attr in ('write', 'writelines') and \
+                    (is_self_attr(c.func.value, ('writer',)) or (isinstance(c.func.value, ast.Name) and c.func.value.id in aliases)):
+                found += 1
+                if locked(c, fn):
+                    chk.ok(rule, f"{q}::write-under-the-send-lock", file=IO, line=c.lineno, found='locked')
+                    continue
+                meth = q.split('.')[1]
+                sites = [(q2, n) for q2, f2 in m.defs.items() for n in ast.walk(f2) if isinstance(n, ast.Call) and is_self_call(n, meth)]
+                if meth.startswith('_') and sites and all(locked(n, m.defs[q2]) for q2, n in sites):
+                    chk.ok(rule, f"{q}::write-under-the-send-lock", file=IO, line=c.lineno, found='every caller holds the lock')
+                    continue
+                chk.violation(rule, f"{q}::write-under-the-send-lock", file=IO, line=c.lineno, func=q, expected='a write to the link outside send() holds the send lock',
+                              found='written outside the lock' + ('' if not sites else f" (called from {sorted({q2 for q2, _ in sites})[:3]})"),
+                              detail='its packet can land between the packets of a message whose sender is suspended in drain()')
+    chk.unit('other_link_writers', found)
 
 def send_types(chk, program, rule='SEND-TYPES'):
     """what _encode_impl hands to writer.write is bytes: each implementation returns the result of an encoder method annotated -> list[bytes]
